@@ -27,7 +27,7 @@ def mk_listener(g, decorations):
 
 
 def mk_decoration_list(g):
-    return g.mlist('decos', lambda e: e.new(Subtoken, {'encoding': e.str_sym('encoding'), 'category': TokenCategory.DECORATION}, None))
+    return g.mlist('decos', lambda e: e.new(Subtoken, {'encoding': e.str_sym('encoding', ['L', 'yy', ';', '(', 'y', 'J', '^']), 'category': TokenCategory.DECORATION}, None))
 
 
 @contract(L + '_add_decoration', props=['C01', 'C03'])
@@ -234,6 +234,11 @@ class exit_note:
             return conj(self.token is None, len(self.chord_tokens) == 1)
         return self.chord_tokens is None
 
+    def post_never_hidden(self):
+        # the exporter writes a placeholder for a token flagged hidden (append_row): a note is never flagged, whatever its signifiers
+        # (C03: every note keeps its text; only the invisible mark of a barline may hide a token -- known finding of C03)
+        return built_note(self).hidden == False
+
 
 @contract(L + 'exitRest', props=['C01', 'C03'])
 class exit_rest:
@@ -259,6 +264,9 @@ class exit_rest:
         if self.in_chord:
             return conj(self.token is None, len(self.chord_tokens) == 1)
         return self.chord_tokens is None
+
+    def post_never_hidden(self):
+        return built_note(self).hidden == False        # (as for notes: a rest is never exported as a placeholder)
 
 
 def decoration_added(self, before, text):
